@@ -89,11 +89,6 @@ pub fn main() -> i32 {
                         unsafe { libc::raise(sig as libc::c_int) };
                         fmt_ran(&log_take())
                     } else {
-                        if d != "dfl" && !d.starts_with("other") {
-                            log_take();
-                            unsafe { libc::raise(sig as libc::c_int) };
-                            log_take();
-                        }
                         format!("notours {}", d)
                     };
                     (r, Some(sig))
